@@ -1262,6 +1262,162 @@ def oracle_pred(ctx):
 
 
 # =====================================================================================================
+# oracle, part 1b: membership is a property of the VALUES, not of the dtype they are stored in
+# =====================================================================================================
+DTYPES = [np.float32, np.float16, np.int64, np.longdouble, object]
+# numpy evaluates norm / + / == of a float16 array in half precision: defects below the float16 resolution (and squares that
+# underflow) are invisible to the predicates although the stored values are exactly representable in float64 -- one root cause, one key
+F16KEY = 'oracle:dtype:float16:half-precision-arithmetic-accepts-nonmember'
+STRICT = (np.float32, np.int64)      # dtypes every predicate / constructor handles: exact members must be ACCEPTED in these
+
+
+def signed_perm(rng, n, det):
+    """exactly representable orthogonal matrix (entries 0, +-1) with the given determinant"""
+    while True:
+        P = np.eye(n)[rng.permutation(n)] * rng.choice([-1.0, 1.0], size=(n, 1))
+        if round(float(np.linalg.det(P))) == det:
+            return P
+
+
+def near_band_rot(rng, n):
+    """a rotation pushed 1.5e-6 .. 1e-4 away from SO(n): uniform scaling (diagonal residual) or one entry"""
+    R = rot(rng, n)
+    k = log_uniform(rng, 1.5e-6, 1e-4) * rng.choice([-1.0, 1.0])
+    if rng.random() < 0.5:
+        return R * (1 + k)
+    R = R.copy()
+    R[rng.integers(n), rng.integers(n)] += 2 * k
+    return R
+
+
+def rot_defect(R):
+    n = R.shape[0]
+    d = R[0, 0] * R[1, 1] - R[0, 1] * R[1, 0] if n == 2 else float(np.dot(R[0], np.cross(R[1], R[2])))
+    return float('inf') if d <= 0 else float(np.linalg.norm(R @ R.T - np.eye(n)))
+
+
+def hom_defect(T):
+    n = T.shape[0] - 1
+    return float('inf') if not np.all(T[n, :] == np.r_[np.zeros(n), 1.0]) else rot_defect(T[:n, :n])
+
+
+def mk_hom(R, t):
+    n = R.shape[0]
+    T = np.eye(n + 1)
+    T[:n, :n] = R
+    T[:n, n] = t
+    return T
+
+
+def oracle_dtypes(ctx):
+    """every predicate with check on and every constructor, on values stored as float32 / float16 / int64 / longdouble / object
+    arrays: a value whose defect (computed on the stored value, in float64) exceeds the band must not be accepted whatever its dtype;
+    an exact member stored as float32 or int64 must be accepted.  Exceptions count as 'not accepted' (float16 / longdouble / object
+    are not supported by numpy.linalg)."""
+    rng = ctx.rng
+    N = ctx.n(120, 6000)
+
+    def families():
+        n = int(rng.choice([2, 3]))
+        Pm, Pr = signed_perm(rng, n, 1), signed_perm(rng, n, -1)
+        bad = near_band_rot(rng, n) if rng.random() < 0.7 else bad_rot(rng, n, str(rng.choice(['NotOrtho', 'Reflect'])))
+        ti = rng.integers(-5, 6, size=n).astype(float)
+        if n == 3:
+            preds = [('isR', lambda X: base.isR(X)), ('isrot', lambda X: base.isrot(X, check=True)), ('SO3.isvalid', lambda X: SO3.isvalid(X))]
+            hp = [('ishom', lambda X: base.ishom(X, check=True)), ('SE3.isvalid', lambda X: SE3.isvalid(X, check=True))]
+            KR, KT = SO3, SE3
+        else:
+            preds = [('isR(2x2)', lambda X: base.isR(X)), ('isrot2', lambda X: base.isrot2(X, check=True)), ('SO2.isvalid', lambda X: SO2.isvalid(X, check=True))]
+            hp = [('ishom2', lambda X: base.ishom2(X, check=True)), ('SE2.isvalid', lambda X: SE2.isvalid(X, check=True))]
+            KR, KT = SO2, SE2
+        yield 'rotation', [Pm], [Pr, bad], rot_defect, preds, [(KR.__name__, KR, 'cSO%d' % n)]
+        Tbad = mk_hom(bad, ti)
+        Trow = mk_hom(Pm, ti)
+        Trow[n, rng.integers(n + 1)] += float(rng.choice([1.0, -1.0, 0.5, 2.0 ** -20]))
+        yield 'homogeneous', [mk_hom(Pm, ti)], [mk_hom(Pr, ti), Tbad, Trow], hom_defect, hp, [(KT.__name__, KT, 'cSE%d' % n)]
+        vi = rng.integers(-4, 5, size=6).astype(float)
+        m = log_uniform(rng, 1.5e-6, 1e-3) * rng.choice([-1.0, 1.0])
+        S = base.skew(vi[:3])
+        Sb = S.copy()
+        Sb[0, 1] += m
+        yield 'skew', [S], [Sb], lambda X: float(np.linalg.norm(X + X.T)), [('isskew', lambda X: base.isskew(X))], []
+        A = base.skewa(vi)
+        Ab, Ac = A.copy(), A.copy()
+        Ab[rng.integers(3), rng.integers(3)] += m
+        Ac[3, rng.integers(4)] += float(rng.choice([1.0, m]))
+        adef = lambda X: max(float(np.linalg.norm(X[3, :])), float(np.linalg.norm(X[:3, :3] + X[:3, :3].T)), float(np.linalg.norm(np.diag(X))))   # noqa: E731
+        yield 'se(3) matrix', [A], [Ab, Ac], adef, [('isskewa', lambda X: base.isskewa(X)), ('Twist3.isvalid', lambda X: Twist3.isvalid(X, check=True))], \
+            [('Twist3', Twist3, 'cTw3')]
+        E = np.eye(3)
+        Eb = E.copy()
+        Eb[rng.integers(3), rng.integers(3)] += m
+        yield 'identity', [E], [Eb], lambda X: float(np.linalg.norm(X - np.eye(3))), [('iseye', lambda X: base.iseye(X))], []
+        for dim in (3, 4):
+            u = np.eye(dim)[rng.integers(dim)] * rng.choice([-1.0, 1.0])
+            ub = [u * (1 + m), rand_unit(rng, dim) * (1 + m), np.zeros(dim)]
+            pr = [('isunitvec', lambda X: base.isunitvec(X))]
+            if dim == 4:
+                pr += [('isunit', lambda X: base.isunit(X)), ('UnitQuaternion.isvalid', lambda X: UnitQuaternion.isvalid(np.asarray(X), check=True))]
+            yield f'unit {dim}-vector', [u], ub, lambda X: abs(float(np.linalg.norm(X)) - 1), pr, []
+        z = rand_unit(rng) * abs(m)
+        yield 'zero vector', [np.zeros(3)], [z], lambda X: float(np.linalg.norm(X)), [('iszerovec', lambda X: base.iszerovec(X))], []
+        w = np.eye(3)[rng.integers(3)]
+        yield 'unit twist', [np.r_[vi[:3], w], np.r_[np.eye(3)[rng.integers(3)], 0, 0, 0]], [np.r_[vi[:3], w * (1 + m)], np.r_[vi[:3] * 0 + 2, 0, 0, 0]], \
+            lambda X: min(abs(np.linalg.norm(X[3:]) - 1), max(np.linalg.norm(X[3:]), abs(np.linalg.norm(X[:3]) - 1))), \
+            [('isunittwist', lambda X: base.isunittwist(X))], []
+
+    def cast(X, dt):
+        if dt is np.int64 and not np.all(X == np.round(X)):
+            return None
+        with np.errstate(all='ignore'):
+            return X.astype(dt)
+
+    for it in range(N):
+        for fam, members, invalids, defect, preds, ctors in families():
+            for dt in DTYPES:
+                dn = np.dtype(dt).name
+                for X64, want_member in [(m_, True) for m_ in members] + [(b_, False) for b_ in invalids]:
+                    X = cast(X64, dt)
+                    if X is None:
+                        continue
+                    V = np.asarray(X, dtype=float)                      # the VALUE that is stored
+                    d = defect(V)
+                    if want_member and d != 0:
+                        continue
+                    if not want_member and not d >= 1.5e-6:
+                        continue                                      # the cast moved the value into the band / onto the group
+                    rep_ = {'family': fam, 'dtype': dn, 'stored_value_hex': hexes(V), 'shape': list(V.shape), 'defect_of_stored_value': d}
+                    for pname, pf in preds:
+                        ctx.case(('dtype', pname, dn, want_member, it))
+                        ctx.count('oracle:dtype')
+                        try:
+                            with np.errstate(all='ignore'):
+                                got = bool(pf(X))
+                        except Exception as ex:  # noqa
+                            got = type(ex).__name__
+                        if not want_member and got is True:
+                            ctx.fail(F16KEY if (dt is np.float16 and d < 2e-3) else f'oracle:dtype:reject:{pname}', f"{pname} accepts a {dn} array whose value is {d:g} from the group / the definition (band 1e-6): "
+                                     "membership must not depend on the dtype", dict(rep_, predicate=pname))
+                        if want_member and dt in STRICT and got is not True:
+                            ctx.fail(f'oracle:dtype:accept:{pname}', f"{pname} does not accept an exact member stored as {dn}: {got}", dict(rep_, predicate=pname))
+                    for cname, K, cc in ctors:
+                        for form in ('bare', 'list'):
+                            ctx.case(('dtype-ctor', cname, dn, form, want_member, it))
+                            ctx.count('oracle:dtype')
+                            try:
+                                with np.errstate(all='ignore'):
+                                    obj = K(X) if form == 'bare' else K([cast(members[0], dt), X])
+                                held = [member(cc, np.asarray(e, dtype=float) if isinstance(e, np.ndarray) else e) for e in obj.data]
+                            except Exception as ex:  # noqa
+                                held = type(ex).__name__
+                            if not want_member and not isinstance(held, str):
+                                ctx.fail(F16KEY if (dt is np.float16 and d < 2e-3) else f'oracle:dtype:ctor:{cname}:accepts-invalid', f"{cname}({form}) accepts a {dn} array whose value is {d:g} from the group; it holds {held}",
+                                         dict(rep_, constructor=cname, form=form))
+                            if want_member and dt in STRICT and (isinstance(held, str) or any(h != 'member' for h in held)):
+                                ctx.fail(f'oracle:dtype:ctor:{cname}:rejects-member', f"{cname}({form}) of an exact member stored as {dn}: {held}", dict(rep_, constructor=cname, form=form))
+
+
+# =====================================================================================================
 # T-tab + oracle, part 2: the constructors on the whole table
 # =====================================================================================================
 COQ_HDR = "From Coq Require Import List.\nImport ListNotations.\nFrom SM Require Import Model.C07_Ctor.\n"
@@ -1531,6 +1687,7 @@ def run(ctx):
         table_objects(ctx)
     with ctx.timed('oracle'):
         oracle_pred(ctx)
+        oracle_dtypes(ctx)
 
 
 def _dedup_extract(text):
